@@ -2026,6 +2026,11 @@ class Surface(SplineGeometry):
         if self._tsl_component.is_tessellated() and not force_tessellate and kwargs == getattr(self, '_tsl_args', kwargs):
             return
 
+        # The tessellation needs a grid of sample_size_u x sample_size_v points; the points of an iso-parametric evaluation
+        # (start == stop in a direction) are not such a grid
+        if len(self.evalpts) != self.sample_size_u * self.sample_size_v:
+            self.evaluate()
+
         # Call tessellation component for vertex and triangle generation
         self._tsl_component.tessellate(self.evalpts, size_u=self.sample_size_u, size_v=self.sample_size_v,
                                        trims=self.trims, domain=self.domain, **kwargs)
